@@ -39,15 +39,17 @@ CHECKS = {
         technique="exhaustive evaluation of table invariants (contracts over constant tables)",
     ),
     "C10": dict(
-        category="other",
-        text="Call-site contracts over the statement tables, decided exhaustively on every run: every ShroudStrCopy / "
-             "ShroudStrBlankFill / ShroudStrAlloc / ShroudLenTrim / std::string(ptr,n) / memset call in a row passes the "
-             "destination, the full capacity (len in buf_args or the CFI elem_len) and the trimmed length (len_trim in "
-             "buf_args or computed over the capacity) in the roles the helper contracts need; input rows use the trimmed "
-             "length, output rows the declared length.",
-        design_ref="6/C10",
-        note="Not covered yet: the C helper bodies themselves (mini-C front end planned), Fortran-side trim/len actuals.",
-        technique="exhaustive evaluation of table invariants (call-site contracts over constant tables)",
+        category="proof",
+        text="Deductive on the real C helper texts (ShroudLenTrim, ShroudStrCopy, ShroudStrBlankFill, ShroudStrAlloc; both "
+             "the c_source and cxx_source variants, extracted from whelpers.CHelpers on every run): loop invariants and "
+             "pre/postconditions over a (block, offset) memory model give, for all lengths and contents, the documented "
+             "copy/truncate/blank-pad/NUL-terminate/trim behaviour, no byte written outside the destination, no read outside "
+             "the source, int arithmetic in range. Plus call-site contracts over the statement tables (which buffer, which "
+             "capacity, which trimmed length each row passes), decided exhaustively.",
+        design_ref="6/C10, A.9",
+        note="Trusted: mini-C front end, libc contracts (memcpy/memset/strlen/malloc), LP64, malloc succeeds. Not covered: "
+             "Fortran intrinsics trim/len/len_trim and std::string(ptr,n) semantics, the Fortran-side slice, ShroudStrToArray/copy_string.",
+        technique="contract-based deductive verification of the emitted C helper text (mini-C VCs, z3) + exhaustive table invariants",
     ),
     "C06": dict(
         category="proof",
